@@ -4,7 +4,7 @@
    from the zeroed statics - the function that is extracted and compared with the compiled C;
    [drbg_spec_run] is SP 800-90A 10.1.2 over HMAC_SHA256_spec (RFC 2104 over FIPS 180-4). *)
 From Coq Require Import NArith List.
-From LCP Require Import Base.CheckedMem Crypto.DrbgSpec Crypto.DrbgModel Crypto.DrbgProofs Crypto.DrbgRepo Crypto.DrbgSha256Proofs.
+From LCP Require Import Base.CheckedMem Crypto.DrbgSpec Crypto.DrbgOsSpec Crypto.DrbgModel Crypto.DrbgOsModel Crypto.DrbgProofs Crypto.DrbgOsProofs Crypto.DrbgRepo Crypto.DrbgSha256Proofs.
 Import ListNotations.
 
 (* for every request sequence and every entropy oracle the modelled generator never aborts and
@@ -27,3 +27,29 @@ Theorem C11_generator_schedule :
   (forall bytes, In (Some bytes) results -> In (EvInstantiate 48 true) tr).
 Proof. exact drbg_run_schedule. Qed.
 Print Assumptions C11_generator_schedule.
+
+(* the same with the OS entropy source opened up: [drbg_os_run] is the model of crypto_entropy.c
+   over the model of util/entropy.c's entropy_read() over scripted open/read/close answers - the
+   function that is extracted and compared with the C built with the real util/entropy.c and
+   interposed system calls.  For every request sequence and every script it never aborts and
+   equals SP 800-90A HMAC_DRBG(SHA-256) fed with the bytes the sessions delivered; a call fails
+   exactly when one of its sessions failed (open failed, fewer than the needed bytes before a
+   read error / EOF, or close failed) *)
+Theorem C11_generator_with_os_entropy_sha256 :
+  forall reqs ss,
+  exists results st' ss' tr,
+    drbg_os_run reqs ss = Ok (results, st', ss', tr) /\
+    drbg_os_spec_run reqs ss = (results, abs_state st', spec_resolve (dinst st') ss') /\
+    suffix ss' ss.
+Proof. exact drbg_os_run_refines_spec. Qed.
+Print Assumptions C11_generator_with_os_entropy_sha256.
+
+Theorem C11_generator_with_os_entropy_schedule :
+  forall reqs ss results st' ss' tr,
+  drbg_os_run reqs ss = Ok (results, st', ss', tr) ->
+  (exists b, pos_run None tr = Some b) /\
+  sched_run None tr = Some (astate_of st') /\
+  trace_oracle tr (spec_resolve false ss) = Some (spec_resolve (dinst st') ss') /\
+  (forall bytes, In (Some bytes) results -> In (EvInstantiate 48 true) tr).
+Proof. exact drbg_os_run_schedule. Qed.
+Print Assumptions C11_generator_with_os_entropy_schedule.
